@@ -17,7 +17,11 @@ pub type SimApp = App<FaultyBank>;
 #[derive(Clone, Debug, Default)]
 pub struct Addrs {
     pub engine: String,
+    /// the fund the engine is configured with (follows the history of accepted UpdateConfig calls)
     pub insurance_fund: String,
+    /// the fund deployed first, and the spare one if the world has it
+    pub if1: String,
+    pub if2: Option<String>,
     pub fee_pool: String,
     pub pricefeed: String,
     pub cw20: Option<String>,
@@ -426,6 +430,22 @@ impl World {
                 addrs.pricefeed = inst(&mut app, pf_id, &r.pf_owner, json!({"oracle_hub_contract": "oracle_hub0000"}), "pricefeed")?;
             }
         }
+        addrs.if1 = addrs.insurance_fund.clone();
+        if let (WorldKind::Standard, Some(bal)) = (&cfg.kind, cfg.spare_if) {
+            // deployed last, so that every other address is what it is without it
+            let if_id = app.store_code(c_if());
+            let a = inst(&mut app, if_id, &r.if_owner, json!({"engine": addrs.engine}), "insurance_fund_2")?;
+            if bal > 0 {
+                match &addrs.cw20 {
+                    Some(tok) => exec(&mut app, TREASURY, tok, json!({"transfer": {"recipient": a, "amount": bal.to_string()}}))?,
+                    None => {
+                        app.execute(Addr::unchecked(TREASURY), CosmosMsg::Bank(BankMsg::Send { to_address: a.clone(), amount: coins(bal, DENOM) }))
+                            .map_err(|e| format!("fund if2: {:#}", e))?;
+                    }
+                }
+            }
+            addrs.if2 = Some(a);
+        }
         let mut w = World { cfg: cfg.clone(), app, addrs, accounts, d };
         w.advance(1, 15);
         Ok(w)
@@ -454,6 +474,8 @@ impl World {
             match rest {
                 "engine" => self.addrs.engine.clone(),
                 "if" => self.addrs.insurance_fund.clone(),
+                "if1" => self.addrs.if1.clone(),
+                "if2" => self.addrs.if2.clone().unwrap_or_else(|| "noif2".into()),
                 "fp" => self.addrs.fee_pool.clone(),
                 "pf" => self.addrs.pricefeed.clone(),
                 "cw20" => self.addrs.cw20.clone().unwrap_or_else(|| "nocw20".into()),
